@@ -96,7 +96,7 @@ def log_likelihood_cached(reads: A[f8, 3], genotype: A[i1, 2], read_counts: Opt[
     requires(implies(read_counts is not None, forall(0, len(reads), lambda r: read_counts[r] >= 0 and implies(read_counts[r] == 0, RP(reads, genotype, r, len(genotype), genotype.shape[1], len(genotype)) > 0))))
     # every read has positive probability, so the likelihood is finite and can be cached
     requires(not isninf(LLK(reads, ones_if_none(read_counts), genotype, len(genotype), genotype.shape[1], len(reads))))
-    requires(implies(cache is not None, AMOK(cache) and cache[2] == len(genotype) * genotype.shape[1] and cache[0].shape[1] >= reads.shape[2]))
+    requires(implies(cache is not None, AMOK(cache) and cache[2] == len(genotype) * genotype.shape[1] and forall(0, len(genotype), lambda h: forall(0, genotype.shape[1], lambda j: genotype[h, j] < cache[0].shape[1]))))
     requires(implies(cache is not None, COH(cache, reads, ones_if_none(read_counts), len(genotype), genotype.shape[1], len(reads))))
     modifies(cache)
     # the served value equals the freshly computed likelihood, with or without a cache
@@ -118,7 +118,7 @@ def log_likelihood_structural_change_cached(reads: A[f8, 3], genotype: A[i1, 2],
     requires(forall(lambda r, j, a: not isninf(reads[r, j, a]) and (isnan(reads[r, j, a]) or reads[r, j, a] >= 0)))
     requires(implies(read_counts is not None, forall(0, len(reads), lambda r: read_counts[r] >= 0 and implies(read_counts[r] == 0, RP(reads, GP, r, len(genotype), genotype.shape[1], len(genotype)) > 0))))
     requires(not isninf(LLK(reads, ones_if_none(read_counts), GP, len(genotype), genotype.shape[1], len(reads))))
-    requires(implies(cache is not None, AMOK(cache) and cache[2] == len(genotype) * genotype.shape[1] and cache[0].shape[1] >= reads.shape[2]))
+    requires(implies(cache is not None, AMOK(cache) and cache[2] == len(genotype) * genotype.shape[1] and forall(0, len(genotype), lambda h: forall(0, genotype.shape[1], lambda j: genotype[h, j] < cache[0].shape[1]))))
     requires(implies(cache is not None, COH(cache, reads, ones_if_none(read_counts), len(genotype), genotype.shape[1], len(reads))))
     modifies(cache)
     ensures(result[0] == LLK(reads, ones_if_none(read_counts), GP, len(genotype), genotype.shape[1], len(reads)))
@@ -131,3 +131,17 @@ def log_likelihood_structural_change_cached(reads: A[f8, 3], genotype: A[i1, 2],
     with after_stmt("structural_change(genotype_new, haplotype_indices=haplotype_indices, interval=interval)"):
         lemma_llk_ext(reads, ones_if_none(read_counts), genotype_new, GP, len(genotype), genotype.shape[1], len(reads))
         lemma_llk_ext(reads, ones_if_none(read_counts), genotype_new, canon2(genotype_new, len(genotype), genotype.shape[1]), len(genotype), genotype.shape[1], len(reads))
+
+
+@contract("mchap.assemble.arraymap.new", trusted=True, props=["C09"])
+def new(array_length: int, node_branches: int, initial_size: int, max_size: int) -> ArrayMap:
+    requires(array_length >= 0, node_branches >= 1, initial_size >= 2)
+    ensures(AMOK(result), result[2] == array_length, result[0].shape[1] == node_branches)
+    ensures(forall_arr1(lambda k: AMMISS(result, k), pattern=AMMISS(result, k)))
+
+
+@contract("mchap.assemble.likelihood.new_log_likelihood_cache", machine_ints=True, props=["C09"])
+def new_log_likelihood_cache(ploidy: int, n_base: int, max_alleles: int, max_size: int) -> ArrayMap:
+    requires(ploidy >= 0, n_base >= 0, ploidy * n_base <= 2 ** 48, max_alleles >= 1)
+    ensures(AMOK(result), result[2] == ploidy * n_base, result[0].shape[1] == max_alleles)
+    ensures(forall_arr1(lambda k: AMMISS(result, k), pattern=AMMISS(result, k)))
